@@ -218,12 +218,28 @@ pub fn rank_expectation(kind: TreeKind, m: &SeqModel, c: u128, i: usize) -> Exp<
     }
 }
 
+thread_local! {
+    /// the symbol of the last select issued by the previous battery on this thread: the next battery
+    /// starts with a select of the same symbol (a memo keyed on something that outlives a tree — its
+    /// address, a thread-local — would hand the new tree the old tree's state)
+    static LAST_SELECT_SYMBOL: std::cell::Cell<Option<u128>> = const { std::cell::Cell::new(None) };
+}
+
 /// Runs the battery; returns a digest of all answers of the real structure.
 pub fn tree_battery<T: Sym>(rep: &mut Rep, t: &dyn DynTree<T>, m: &SeqModel, rng: &mut Rng, o: &BatOpts) -> Digest {
     let mut dg = Digest::default();
     let n = m.len();
     let kind = t.kind();
 
+    // ---- first of all: the same select the previous tree on this thread answered last
+    if let Some(c) = LAST_SELECT_SYMBOL.with(|l| l.get()) {
+        if c <= T::max_u128() {
+            let cs = T::from_u128(c);
+            for k in [0usize, 1, 2] {
+                chk!(rep, "select[first query, symbol of the previous tree's last query]", (c, k), Exp::Is(m.select(c, k)), t.select_(cs, k));
+            }
+        }
+    }
     // ---- scalars
     chk!(rep, "len", (), Exp::Is(n), t.len_());
     chk!(rep, "is_empty", (), Exp::Is(n == 0), t.is_empty_());
@@ -390,6 +406,15 @@ pub fn tree_battery<T: Sym>(rep: &mut Rep, t: &dyn DynTree<T>, m: &SeqModel, rng
             r == want
         });
         rep.tick_n("iter_items", 2 * n as u64);
+    }
+    // ---- last of all: a select of a present symbol, remembered for the next battery on this thread
+    if !m.syms.is_empty() {
+        let c = m.syms[(n / 3) % m.syms.len()];
+        let cs = T::from_u128(c);
+        for k in [0usize, 1, 2] {
+            chk!(rep, "select[last query]", (c, k), Exp::Is(m.select(c, k)), t.select_(cs, k));
+        }
+        LAST_SELECT_SYMBOL.with(|l| l.set(Some(c)));
     }
     rep.gate_max("max_n", n as u64);
     dg
